@@ -124,6 +124,175 @@ fn c13_adf(c: &SemCase, st: &mut Stats) -> CheckResult {
     }
 }
 
+/// Deep diagrams over 20..60 variables (children of very different depth): chains of literals joined by and / or /
+/// xor, two or three of them put under selector variables.
+#[derive(Clone, Debug, Serialize, Deserialize, Hash)]
+pub struct DeepCase {
+    /// number of variables (<= 60: every count fits a machine word, every depth gap is < 64)
+    pub vars: u8,
+    /// chains: (first variable, length, per position: (connective 0 and / 1 or / 2 xor, literal polarity, skip this variable))
+    pub chains: Vec<(u8, u8, Vec<(u8, bool, bool)>)>,
+    /// how the chains are joined under the selector variables (0 = if-then-else, 1 = and, 2 = or, 3 = xor)
+    pub join: u8,
+    pub memo_first: bool,
+}
+
+fn deep_case() -> BoxedStrategy<DeepCase> {
+    (20u8..=60, proptest::collection::vec((any::<u8>(), any::<u8>(), proptest::collection::vec((0u8..3, any::<bool>(), proptest::bool::weighted(0.15)), 60)), 1..=3), 0u8..4, any::<bool>())
+        .prop_map(|(vars, chains, join, memo_first)| DeepCase { vars, chains, join, memo_first })
+        .boxed()
+}
+
+fn c13_deep(c: &DeepCase, st: &mut Stats) -> CheckResult {
+    use adf_bdd::datatypes::Var;
+    use adf_bdd::obdd::Bdd;
+    let v = c.vars as usize;
+    let mut bdd = Bdd::new();
+    // selectors are the first variables; chains live on variables 3..v, built bottom-up (cheap: the new literal is above the rest)
+    let mut roots: Vec<Term> = Vec::new();
+    for (first, len, spec) in &c.chains {
+        let lo = 3 + (*first as usize) % (v - 3);
+        let hi = (lo + 1 + (*len as usize) % (v - lo)).min(v);
+        let mut acc: Option<Term> = None;
+        for i in (lo..hi).rev() {
+            let (con, pol, skip) = spec[i % spec.len()];
+            if skip && i != lo {
+                continue;
+            }
+            let x = bdd.variable(Var(i));
+            let lit = if pol { x } else { bdd.not(x) };
+            acc = Some(match acc {
+                None => lit,
+                Some(a) => match con {
+                    0 => bdd.and(lit, a),
+                    1 => bdd.or(lit, a),
+                    _ => bdd.xor(lit, a),
+                },
+            });
+        }
+        roots.push(acc.unwrap_or(Term::TOP));
+    }
+    let mut all = roots.clone();
+    let mut top = roots[0];
+    for (i, r) in roots.iter().enumerate().skip(1) {
+        let sel = bdd.variable(Var(i - 1));
+        top = match c.join {
+            0 => {
+                let nsel = bdd.not(sel);
+                let a = bdd.and(sel, top);
+                let b = bdd.and(nsel, *r);
+                bdd.or(a, b)
+            }
+            1 => {
+                let a = bdd.or(sel, *r);
+                bdd.and(a, top)
+            }
+            2 => {
+                let a = bdd.and(sel, *r);
+                bdd.or(a, top)
+            }
+            _ => {
+                let a = bdd.and(sel, *r);
+                bdd.xor(a, top)
+            }
+        };
+        all.push(top);
+    }
+    // one more level on top: a selector directly above a deep diagram and a constant (depth gap = whole depth)
+    let s2 = bdd.variable(Var(2));
+    let g = bdd.and(s2, top);
+    all.push(g);
+    let g2 = bdd.or(s2, top);
+    all.push(g2);
+    if bdd.nodes.len() > 200_000 {
+        return Ok(Outcome::Ok);
+    }
+    // own counting over the public node table by variable LEVELS (not by depth): number of satisfying assignments over all
+    // v variables, with the gaps between a node's variable and its children's variables
+    fn sat(bdd: &adf_bdd::obdd::Bdd, t: Term, v: usize, memo: &mut std::collections::HashMap<usize, u128>) -> u128 {
+        // satisfying assignments of the variables from var(t) (incl.) to v-1; constants: level v
+        if t == Term::TOP {
+            return 1;
+        }
+        if t == Term::BOT {
+            return 0;
+        }
+        if let Some(r) = memo.get(&t.value()) {
+            return *r;
+        }
+        let n = bdd.nodes[t.value()];
+        let lvl = |x: Term| if x.is_truth_value() { v } else { bdd.nodes[x.value()].var().value() };
+        let here = n.var().value();
+        let l = sat(bdd, n.lo(), v, memo) << (lvl(n.lo()) - here - 1);
+        let h = sat(bdd, n.hi(), v, memo) << (lvl(n.hi()) - here - 1);
+        memo.insert(t.value(), l + h);
+        l + h
+    }
+    let mut memo = std::collections::HashMap::new();
+    let mut dmemo = std::collections::HashMap::new();
+    let mut max_gap = 0usize;
+    for &h in &all {
+        if h.is_truth_value() {
+            continue;
+        }
+        let top_var = bdd.nodes[h.value()].var().value();
+        let total: u128 = 1u128 << (v - top_var);
+        let s = sat(&bdd, h, v, &mut memo);
+        let (p0, p1, depth, mind) = crate::queries::dfs(&bdd, h, &mut dmemo);
+        max_gap = max_gap.max(depth - mind);
+        let flags = if c.memo_first { [true, false] } else { [false, true] };
+        for flag in flags {
+            // memoised model counts are the documented exception of the default build
+            if flag {
+                continue;
+            }
+            let m = bdd.models(h, flag);
+            let (mm, cc) = (m.models as u128, m.cmodels as u128);
+            if mm + cc == 0 || mm * (total - s) != cc * s {
+                return Err(format!(
+                    "models({}, {flag}) = (models {mm}, counter-models {cc}) for a diagram over {} variables (depth {depth}, shortest path {mind}) \
+                     with {s} of {total} satisfying assignments",
+                    h.value(),
+                    v - top_var
+                ));
+            }
+            if mm + cc != 1u128 << depth {
+                return Err(format!("models({}, {flag}): models + counter-models = {} but the diagram has depth {depth}", h.value(), mm + cc));
+            }
+        }
+        for flag in [false, true] {
+            let p = bdd.paths(h, flag);
+            if p.cmodels as u128 != p0 || p.models as u128 != p1 {
+                return Err(format!("paths({}, {flag}) = ({}, {}) but the diagram has {p0} / {p1} paths", h.value(), p.cmodels, p.models));
+            }
+        }
+        if bdd.max_depth(h) != depth {
+            return Err(format!("max_depth({}) = {} but the longest path has {depth} edges", h.value(), bdd.max_depth(h)));
+        }
+        let mut reach = std::collections::BTreeSet::new();
+        let mut stack = vec![h];
+        let mut seen = std::collections::HashSet::new();
+        while let Some(t) = stack.pop() {
+            if t.is_truth_value() || !seen.insert(t) {
+                continue;
+            }
+            let n = bdd.nodes[t.value()];
+            reach.insert(n.var().value());
+            stack.push(n.lo());
+            stack.push(n.hi());
+        }
+        let deps: std::collections::BTreeSet<usize> = bdd.var_dependencies(h).into_iter().map(|x| x.value()).collect();
+        if deps != reach {
+            return Err(format!("var_dependencies({}) lists {} variables, the diagram tests {}", h.value(), deps.len(), reach.len()));
+        }
+    }
+    st.label(&format!("max_depth_gap>={}", (max_gap / 10) * 10));
+    if max_gap >= 16 {
+        st.nontrivial(stable_hash(c), || json!({"vars": v, "nodes": bdd.nodes.len(), "max_depth_gap": max_gap}));
+    }
+    Ok(Outcome::Ok)
+}
+
 pub fn c13(tier: Tier) -> PropSpec {
     let (k, ops) = tier.pick((6u8, 40usize), (10u8, 120usize));
     PropSpec {
@@ -165,6 +334,8 @@ pub fn c13(tier: Tier) -> PropSpec {
                 c13_pairs,
             ),
             Part::new("adf", tier.pick(15000, 150000), || sem_case(1, 6), c13_adf),
+            // deep diagrams over 20..60 variables: depth gaps of 16..59 between the children of a node
+            Part::new("deep", tier.pick(6000, 60000), deep_case, c13_deep),
             // the same queries under every cargo feature set (probe binaries of C12, op sequences only)
             Part::with_shrink(
                 "feature-lanes",
